@@ -4,9 +4,10 @@
 //       case line:  <initial> <max> <queueCap> <idleMs> | <prog> | replay|prefix <threads...> | random <seed>
 //       prog:  main=stop,join ; s1=try:1,fut:2:t,count ; s2=enq:3:s
 //         submitter ops:  try:<id>[:kind]  enq:<id>[:kind]  fut:<id>[:kind]  count
-//            kind n (plain), t (throws), s (submits task id+50 from inside the task), p (has a schedule point inside)
+//            kind n (plain), t (throws), s (submits task id+50 from inside the task), p (has a schedule point inside),
+//                 l (long: sleeps 8 s of virtual time)
 //         main ops (after constructing the pool and starting the submitters; destruction is always last):
-//            join (wait for the submitters)  drain  stop  count  idle (sleep 3 idle timeouts)
+//            join (wait for the submitters)  drain  stop  count  idle (sleep 3 idle timeouts)  restart (stop, reset, start)
 //   drv_s_pool dfs <initial> <max> <queueCap> <idleMs> <prog> <preemption bound> <max executions> <out.ndjson> [parallel]
 //
 // Events: Begin{init,max,cap} SubmitCall{t,id,api} SubmitRet{t,id,ok} TaskRun{id} TaskEnd{id} Count{t,n,nw}
@@ -81,6 +82,7 @@ static std::function<int()> makeTask(Shared &sh, int id, char kind)
   {
     sh.tr.add(vf::Ev("TaskRun").i("id", id));
     if (kind == 'p') vf::point("task");
+    if (kind == 'l') std::this_thread::sleep_for(std::chrono::seconds(8)); // a long task (virtual time): outlasts stop()'s bounded polling
     if (kind == 's')
     {
       int cid = id + 50;
@@ -192,6 +194,19 @@ static std::string runOne(const Config &cfg, const std::vector<ThreadProg> &prog
                     sh->tr.add(vf::Ev("Count").str("t", "main").i("n", (int)pool->getTotalThreadCount()).i("nw", vf::liveThreads("w")));
                   else if (op.op == "idle")
                     std::this_thread::sleep_for(std::chrono::milliseconds(3LL * cfg.idleMs));
+                  else if (op.op == "restart")
+                  {
+                    // a full cycle: stop (logged like any stop), reset, start - the pool accepts work again
+                    sh->tr.add(vf::Ev("LifeCall").str("op", "stop"));
+                    auto r0 = pool->stop();
+                    sh->tr.add(vf::Ev("LifeRet").str("op", "stop").b("ok", r0.success));
+                    // (announced BEFORE the calls: a submitter may be accepted as soon as start() has opened the pool,
+                    // before this thread gets to log anything)
+                    sh->tr.add(vf::Ev("Restart").b("ok", true));
+                    auto r1 = pool->reset();
+                    auto r2 = pool->start();
+                    sh->tr.add(vf::Ev("RestartRet").b("ok", r1.success && r2.success));
+                  }
                   else if (op.op == "drain" || op.op == "stop")
                   {
                     sh->tr.add(vf::Ev("LifeCall").str("op", op.op));
